@@ -347,7 +347,9 @@ class Runner:
             return None             # this routine hangs (reported three times with concrete inputs): stop calling it
         try:
             # lengths = integers * 2**scale_pow: exact in binary64 (numerators < 2**40, sums of <= 7 of them < 2**53)
-            return call(f, M.astype(float) * (2.0 ** scale_pow), _t=10.0)
+            r = call(f, M.astype(float) * (2.0 ** scale_pow), _t=10.0)
+            tie_variants(case)          # input-representation layer: the model comparison of this case is batched and comes later
+            return r
         except Timeout:
             self.timeouts[key] = self.timeouts.get(key, 0) + 1
             self.ctx.fail(key + ':raises', 'does not terminate within 10 s', case)
